@@ -15,6 +15,7 @@ MODULES = [
     "contracts.dynamic_lists",
     "contracts.auth",
     "contracts.web",
+    "contracts.base",
 ]
 for m in MODULES:
     importlib.import_module(m)
